@@ -52,6 +52,10 @@ fn push_ech(o: &mut String, e: bool, c: Option<Ordering>, h: Option<bool>) {
     }
 }
 
+pub(crate) fn push_ech_pub(o: &mut String, e: bool, c: Option<Ordering>, h: Option<bool>) {
+    push_ech(o, e, c, h)
+}
+
 fn push_t(o: &mut String, text: &str) {
     o.push_str(" T:");
     hexs::push_hex(o, text.as_bytes());
@@ -662,6 +666,12 @@ pub fn dispatch(op: &str, payload: &str, args: &[&str]) -> String {
         "par" => return op_par(payload, args),
         "build_media" => return crate::builders::op_build_media(payload),
         "build_master" => return crate::builders::op_build_master(payload),
+        "cmp_build_media" => {
+            return match args.first().and_then(|a| hexs::decode_text(a)) {
+                Some(other) => crate::builders::op_cmp_build_media(payload, &other),
+                None => bad(),
+            }
+        }
         _ => {}
     }
 
